@@ -452,3 +452,24 @@ def datetime_casts_keep_components(i: int) -> bool:
         return _try(T2['dt2time'], s=s) == ['00:00:00' + tz] and _try(T2['dt2date'], s=s) == ['2000-06-16' + tz]
     return _try(T2['dt2time'], s=s) == [rest + tz] and _try(T2['dt2time_cast'], s=s) == [rest + tz] and _try(T2['dt2date'], s=s) == [date + tz] \
         and _try(T2['secs'], s=s) == [True] and _try(T2['dt2gy'], s=s) == [date[:4] + tz] and _try(T2['dt2gmd'], s=s) == ['-' + date[4:] + tz]
+
+
+# --- added after a defect reported during round 4: the string form of an xs:double denotes the same double -----------------------------------
+
+T2.update(parse_all({'dbl_rt': '(number(string($x)) = $x, xs:double(string($x)) eq $x, number(concat($x, "")) = $x, xs:double(xs:untypedAtomic($x)) eq $x, string($x))'}))
+DBLS = (1.5e20, 1e20, 1.5e-20, 1e-7, 2.5e100, 1.25e300, 100.0, 1200.0, 1e21, 0.1, 123456789.0, 5e-324, 1.7976931348623157e308, 1e16, 1.0000000000000002)
+
+
+@ob(budget=120, bound='15 doubles with exponents ending in 0, large and small magnitudes (index and sign chosen by the solver): string(), concat() and '
+                      'xs:untypedAtomic() give a text that converts back to the same double, without "+" and with E upper case',
+    funcs=['elementpath/xpath_tokens/base.py:XPathToken.string_value', 'elementpath/datatypes/untyped.py:UntypedAtomic.__init__'])
+def double_string_denotes_same_double(i: int, neg: bool) -> bool:
+    """
+    pre: 0 <= i <= 14
+    post: _
+    """
+    x = DBLS[[k for k in range(15) if k == i][0]]
+    if neg:
+        x = -x
+    r = _try(T2['dbl_rt'], x=x)
+    return isinstance(r, list) and r[:4] == [True, True, True, True] and '+' not in r[4] and 'e' not in r[4] and float(r[4]) == x
